@@ -589,6 +589,41 @@ func runC03(r *Rand, tier string, o *Out) {
 			o.Count("case:string-length-sweep")
 		}
 	}
+	// one dynamic value that holds many dynamic values, side by side rather than inside one another: a list / a map
+	// of them in a value, alone and next to another member; a few levels of short lists of values
+	{
+		num := func(n uint64) *tval { return &tval{kind: 'n', n: n} }
+		dyn := func(sig string, v *tval) *tval { return &tval{kind: 'm', dynT: parseSigT(sig), elems: []*tval{v}} }
+		for _, n := range []int{999, 1000, 1001, 1300} {
+			if tier != "thorough" && n == 1300 {
+				continue
+			}
+			l := &tval{kind: '['}
+			mp := &tval{kind: '{'}
+			for j := 0; j < n; j++ {
+				l.elems = append(l.elems, dyn("I", num(uint64(j))))
+				mp.elems = append(mp.elems, &tval{kind: 's', s: []byte(fmt.Sprintf("k%04d", j))}, dyn("I", num(uint64(j*3))))
+			}
+			c03CaseV(r, o, parseSigT("m"), dyn("[m]", l))
+			c03CaseV(r, o, parseSigT("(mI)"), &tval{kind: '(', elems: []*tval{dyn("[m]", l), num(uint64(n))}})
+			c03CaseV(r, o, parseSigT("m"), dyn("{sm}", mp))
+			c03CaseV(r, o, parseSigT("[m]"), l)
+			o.Count("case:many-values-in-one-value")
+		}
+		var nest func(depth int) *tval
+		nest = func(depth int) *tval {
+			l := &tval{kind: '['}
+			for j := 0; j < 30; j++ {
+				l.elems = append(l.elems, dyn("I", num(uint64(depth*100+j))))
+			}
+			if depth > 0 {
+				l.elems = append(l.elems, nest(depth-1))
+			}
+			return dyn("[m]", l)
+		}
+		c03CaseV(r, o, parseSigT("m"), nest(35))
+		o.Count("case:many-values-in-one-value")
+	}
 	// long strings and long lists, around 64 KiB and its multiples, inside typed data
 	long := 6
 	if tier == "thorough" {
